@@ -759,6 +759,35 @@ func partHistory() {
 				}
 			}
 		}
+		// head (by digest or tag), edit whatever came back, get by digest: a head result is the caller's as well
+		for _, repo := range []string{"proj/app", "proj/put"} {
+			hby := []string{d, "v1"}[rng.Intn(2)]
+			if repo == "proj/put" && hby == "v1" {
+				hby = "p1"
+			}
+			mh, err := rc.ManifestHead(ctx, rcx.Ref(h, repo, hby))
+			if err != nil {
+				continue
+			}
+			if a, ok := mh.(manifest.Annotator); ok {
+				_ = a.SetAnnotation("edited.head.result", fmt.Sprint(i))
+			}
+			if a, ok := mh.(manifest.Imager); ok {
+				_ = a.SetLayers(nil)
+			}
+			if a, ok := mh.(manifest.Indexer); ok {
+				_ = a.SetManifestList(nil)
+			}
+			m4, err := rc.ManifestGet(ctx, rcx.Ref(h, repo, d))
+			if err == nil {
+				run.Count("second_gets_checked", 1)
+				run.Count("gets_after_head_edit", 1)
+				raw, _ := m4.RawBody()
+				if string(m4.GetDescriptor().Digest) != d || !bytes.Equal(raw, b.raw) {
+					run.Violation(fmt.Sprintf("cache/get-after-head-then-edit/cache=%t", cache), fmt.Sprintf("head(%s), setters on the returned object, get by digest %s: the result reports digest %s and %d bytes (stored: %d bytes)", hby, d, m4.GetDescriptor().Digest, len(raw), len(b.raw)), wit)
+				}
+			}
+		}
 		run.Distinct(fmt.Sprintf("hist/%s/cache=%t/%s/%s", kind, cache, by[:2], edit))
 		w.Close()
 	}
